@@ -40,6 +40,27 @@ k("ts_cover_times_rev", *TS, ["C02", "C03", "C10", "C20"], "cover", assumes=[A1]
 k("ts_cover_infinite_fwd", *TS, ["C02", "C03", "C10", "C20"], "cover", assumes=[A1])
 k("ts_canary_must_fail", *TS, ["C02", "C03", "C07", "C10", "C20"], "canary")
 
+V = []
+def v(id, function, props, kind="contract", clause=None, tier="quick"):
+    V.append({"id": id, "function": function, "props": props, "kind": kind, "clause": clause, "tier": tier, "assumes": ["A2", "A3"]})
+
+v("v_from_keyframes", "SubTimeline::from_keyframes", ["C01", "C08", "C17", "C20"],
+  clause="for EVERY keyframe list: no defining keyframe => empty (C08); else frames == fold spec a_frames_final (synthetic 0% frame with default value+default easing, one frame per defining keyframe with the easing in force, held 100% frame), map == a_map, no override, wf, and (valid sorted keyframes) the lookup invariant `linked`; loop invariant over the real for-loop; no index arithmetic overflow")
+v("v_get_bounding_frames", "SubTimeline::get_bounding_frames", ["C01", "C08", "C10", "C20"],
+  clause="requires wf; hint outside the map => None; else result == spec_bounding (which neighbours); `len() - 1`, `index_at + 1`, `index_at - 1` cannot overflow")
+v("v_get_frame", "SubTimeline::get_frame", ["C01", "C10", "C04"], clause="result == spec_frame_at: override iff enabled && index == 0 && override present")
+v("v_override_start_value", "SubTimeline::override_start_value", ["C09", "C10", "C04"],
+  clause="frames, map untouched; override REPLACED by frame0.with_value(v) (time, easing of frame 0); wf and linked preserved; no-op on empty")
+v("v_empty", "SubTimeline::empty", ["C08"], clause="empty frames, empty map, no override, wf")
+v("v_split_new", "SplitKeyframe::new", ["C01"], clause="fields are the arguments")
+v("v_split_with_time", "SplitKeyframe::with_time", ["C01"], clause="time replaced, value cloned, easing kept")
+v("v_split_with_value", "SplitKeyframe::with_value", ["C01", "C10"], clause="value replaced, time and easing kept")
+v("v_lemma_af_inv", "lemma_af_inv", ["C01", "C20"], kind="lemma", clause="fold spec => frames valid, first at 0%, each at-or-before its keyframe, frames after a mapped index come from later keyframes (induction on the number of keyframes)")
+v("v_lemma_lookup_brackets", "lemma_lookup_brackets", ["C01", "C02", "C10"], kind="lemma",
+  clause="wf && linked && hint_ok => lookup returns consecutive frames (k,k+1) or (last,last) with first.t <= t <= second.t")
+v("v_lemma_no_frames_default_easing", "lemma_no_frames_default_easing", ["C01"], kind="lemma", clause="no frames yet => easing in force is the default easing")
+v("v_lemma_frames_nonempty", "lemma_frames_nonempty_and_map_in_range", ["C01", "C08", "C20"], kind="lemma", clause="some defining keyframe => >=1 frame; map entries in range")
+
 exec(open(os.path.join(VERIF, "tools", "gen_registry_more.py")).read()) if os.path.exists(os.path.join(VERIF, "tools", "gen_registry_more.py")) else None
 
 A = {
@@ -56,5 +77,5 @@ P = {
 }
 exec(open(os.path.join(VERIF, "tools", "gen_registry_props.py")).read()) if os.path.exists(os.path.join(VERIF, "tools", "gen_registry_props.py")) else None
 
-json.dump({"properties": P, "kani": K, "verus": []}, open(os.path.join(VERIF, "contracts", "registry.json"), "w"), indent=1)
-print("registry: %d kani harnesses, %d properties" % (len(K), len(P)))
+json.dump({"properties": P, "kani": K, "verus": V}, open(os.path.join(VERIF, "contracts", "registry.json"), "w"), indent=1)
+print("registry: %d kani harnesses, %d verus units, %d properties" % (len(K), len(V), len(P)))
